@@ -794,3 +794,255 @@ Proof.
     rewrite (fold_rm_listed _ _ _ _ (members_inv_wf _ _ _ E)), (expire_targets_In _ _ _ _ B). tauto.
   - split; [reflexivity|split; [reflexivity|exact I']].
 Qed.
+
+(* ================= the boolean invariant ================= *)
+Lemma members_invb_iff proj lights td : NoDup (dict_keys lights) ->
+  (members_invb proj lights td = true <-> members_inv proj lights td).
+Proof.
+  intros N. unfold members_invb. rewrite !andb_true_iff, nodupb_NoDup, !forallb_forall. split.
+  - intros [[K L] X]. constructor; auto.
+    + intros g l H. specialize (L _ H). cbn [fst snd] in L.
+      apply andb_true_iff in L as [L _]. apply andb_true_iff in L as [L1 L2].
+      split; [now apply sortedb_sound|]. intros ->. discriminate.
+    + intros g n. split.
+      * intros [l [H Hn]]. specialize (L _ H). cbn [fst snd] in L.
+        apply andb_true_iff in L as [_ L]. rewrite forallb_forall in L. specialize (L _ Hn).
+        destruct (dict_get n lights) as [v|] eqn:G; [|discriminate].
+        exists v. split; [now apply dict_get_Some_In|now apply String.eqb_eq].
+      * intros [v [H E]]. specialize (X _ H). cbn [fst snd] in X. rewrite E in X.
+        destruct (dict_get g td) as [l|] eqn:G; [|discriminate].
+        exists l. split; [now apply dict_get_Some_In|now apply memb_In].
+  - intros [K L X]. split; [split; auto|].
+    + intros [g l] H. cbn [fst snd]. destruct (L _ _ H) as [S NE].
+      rewrite (sortedb_complete _ S). destruct l as [|a l']; [contradiction|]. cbn [is_nil negb andb].
+      apply forallb_forall. intros n Hn.
+      destruct (proj1 (X g n)) as [v [H1 H2]]; [exists (a :: l'); auto|].
+      apply (dict_get_In _ _ _ N) in H1. rewrite H1. now apply String.eqb_eq.
+    + intros [n v] H. cbn [fst snd].
+      destruct (proj2 (X (proj v) n)) as [l [H1 H2]]; [eauto|].
+      apply (dict_get_In _ _ _ K) in H1. rewrite H1. now apply memb_In.
+Qed.
+
+Theorem dir_invb_iff : forall d, dir_invb d = true <-> dir_inv d.
+Proof.
+  intros d. unfold dir_invb. rewrite !andb_true_iff, nodupb_NoDup, !forallb_forall. split.
+  - intros [[[[[A B] C1] C2] D] E]. constructor; auto.
+    + now apply sortedb_sound.
+    + intros n. split; intros H; apply memb_In; auto.
+    + now apply members_invb_iff.
+    + now apply members_invb_iff.
+  - intros [A B C D E]. repeat split; auto.
+    + now apply sortedb_complete.
+    + intros n H. apply memb_In. now apply C.
+    + intros n H. apply memb_In. now apply C.
+    + now apply members_invb_iff.
+    + now apply members_invb_iff.
+Qed.
+
+(* ================= sorting ================= *)
+Lemma sorted_insert_In : forall l x y, In y (sorted_insert x l) <-> y = x \/ In y l.
+Proof.
+  induction l as [|z t IH]; intros x y; cbn [sorted_insert].
+  - cbn. intuition.
+  - destruct (str_ltb x z); cbn [In]; [|rewrite IH]; intuition.
+Qed.
+
+Lemma sorted_insert_sorted : forall l x, sorted l -> ~ In x l -> sorted (sorted_insert x l).
+Proof.
+  induction l as [|z t IH]; intros x S NI; cbn [sorted_insert].
+  - apply sorted_single.
+  - pose proof S as S'. apply sorted_cons_iff in S' as [St F]. destruct (str_ltb x z) eqn:E.
+    + apply sorted_cons_iff. split; auto. constructor; auto.
+      rewrite Forall_forall in *. intros y Hy. apply (str_lt_trans x z y); auto.
+    + apply sorted_cons_iff. split.
+      * apply IH; auto. intros H. apply NI. now right.
+      * rewrite Forall_forall in *. intros y Hy. apply sorted_insert_In in Hy as [->|Hy]; auto.
+        destruct (str_lt_trichotomy z x) as [H|[H|H]]; auto.
+        -- subst. exfalso. apply NI. now left.
+        -- unfold str_lt in H. congruence.
+Qed.
+
+Lemma py_sorted_In l y : In y (py_sorted l) <-> In y l.
+Proof.
+  induction l as [|x l IH]; cbn [py_sorted fold_right]; [tauto|].
+  fold (py_sorted l). rewrite sorted_insert_In, IH. cbn. intuition.
+Qed.
+
+Lemma py_sorted_sorted l : NoDup l -> sorted (py_sorted l).
+Proof.
+  induction l as [|x l IH]; intros N; cbn [py_sorted fold_right]; [constructor|].
+  fold (py_sorted l). inversion N; subst. apply sorted_insert_sorted; auto.
+  now rewrite py_sorted_In.
+Qed.
+
+Lemma set_insert_In : forall l x y, In y (set_insert x l) <-> y = x \/ In y l.
+Proof.
+  induction l as [|z t IH]; intros x y; cbn [set_insert].
+  - cbn. intuition.
+  - destruct (str_ltb x z) eqn:E1; [cbn [In]; intuition|].
+    destruct (str_ltb z x) eqn:E2; cbn [In]; [rewrite IH; intuition|].
+    pose proof (str_ltb_total _ _ E1 E2). subst. intuition.
+Qed.
+
+Lemma set_insert_sorted : forall l x, sorted l -> sorted (set_insert x l).
+Proof.
+  induction l as [|z t IH]; intros x S; cbn [set_insert].
+  - apply sorted_single.
+  - pose proof S as S'. apply sorted_cons_iff in S' as [St F]. destruct (str_ltb x z) eqn:E1.
+    + apply sorted_cons_iff. split; auto. constructor; auto.
+      rewrite Forall_forall in *. intros y Hy. apply (str_lt_trans x z y); auto.
+    + destruct (str_ltb z x) eqn:E2; auto. apply sorted_cons_iff. split; auto.
+      rewrite Forall_forall in *. intros y Hy. apply set_insert_In in Hy as [->|Hy]; auto.
+Qed.
+
+Lemma sort_set_In l y : In y (sort_set l) <-> In y l.
+Proof.
+  induction l as [|x l IH]; cbn [sort_set fold_right]; [tauto|].
+  fold (sort_set l). rewrite set_insert_In, IH. cbn. intuition.
+Qed.
+
+Lemma sort_set_sorted l : sorted (sort_set l).
+Proof.
+  induction l as [|x l IH]; cbn [sort_set fold_right]; [constructor|].
+  fold (sort_set l). now apply set_insert_sorted.
+Qed.
+
+(* ================= refinement to the abstract directory ================= *)
+Definition refines (d : dir) (m : amap) : Prop :=
+  NoDup (dict_keys m) /\ forall n v, In (n, v) (d_lights d) <-> In (n, v) m.
+
+Lemma a_put_In n v (m : amap) n' v' :
+  In (n', v') (a_put n v m) <-> (n' = n /\ v' = v) \/ (n' <> n /\ In (n', v') m).
+Proof.
+  unfold a_put. cbn [In]. rewrite filter_In. cbn [fst]. rewrite negb_true_iff, String.eqb_neq. split.
+  - intros [H|[H1 H2]]; [inversion H|]; auto.
+  - intros [[-> ->]|[H1 H2]]; auto.
+Qed.
+
+Lemma a_put_NoDup n v (m : amap) : NoDup (dict_keys m) -> NoDup (dict_keys (a_put n v m)).
+Proof.
+  intros N. unfold a_put. cbn [dict_keys map fst]. constructor; [|now apply filter_keys_NoDup].
+  intros H. apply keys_in in H as [w H]. apply filter_In in H as [_ H]. cbn [fst] in H.
+  now rewrite String.eqb_refl in H.
+Qed.
+
+Lemma refines_discover_one t d m r : NoDup (dict_keys (d_lights d)) -> refines d m ->
+  refines (discover_one t d r) (a_put (r_name r) (mkLight (r_group r) (r_loc r) t) m).
+Proof.
+  intros N [K X]. split; [now apply a_put_NoDup|].
+  intros n v. unfold discover_one. cbn [d_lights]. rewrite (dict_set_In _ _ _ _ _ N), a_put_In, X. tauto.
+Qed.
+
+Lemma refines_fold_discover t snap : forall d m, dir_inv d -> refines d m ->
+  refines (fold_left (discover_one t) snap d)
+          (fold_left (fun m r => a_put (r_name r) (mkLight (r_group r) (r_loc r) t) m) snap m).
+Proof.
+  induction snap as [|r snap IH]; intros d m I R; cbn [fold_left]; auto.
+  apply IH; [now apply discover_one_inv|]. apply refines_discover_one; auto. now destruct I.
+Qed.
+
+Lemma refines_step d m s : dir_inv d -> refines d m -> refines (do_step d s) (a_step m s).
+Proof.
+  intros I R. destruct s as [snap t| |now max_age]; cbn [do_step a_step].
+  - destruct (refines_fold_discover t snap d m I R) as [K X]. split; auto.
+  - destruct R as [K X]. split; auto.
+  - destruct R as [K X]. split; [now apply filter_keys_NoDup|].
+    intros n v. rewrite (expire_lights_eq _ _ _ (di_lights_keys _ I)). unfold a_expire.
+    rewrite !filter_In, X. tauto.
+Qed.
+
+Lemma refines_fold h : forall d m, dir_inv d -> refines d m ->
+  refines (fold_left do_step h d) (fold_left a_step h m).
+Proof.
+  induction h as [|s h IH]; intros d m I R; cbn [fold_left]; auto.
+  apply IH; [now apply do_step_inv|now apply refines_step].
+Qed.
+
+Lemma refines_run h : refines (run h) (a_run h).
+Proof.
+  apply refines_fold; [apply dir_inv_empty|]. split; [constructor|]. cbn. tauto.
+Qed.
+
+Lemma nil_of_no_elements {A} (l : list A) : (forall x, ~ In x l) -> l = [].
+Proof. destruct l as [|a l]; auto. intros H. exfalso. apply (H a). now left. Qed.
+
+Lemma members_refine proj d td m g : NoDup (dict_keys (d_lights d)) ->
+  members_inv proj (d_lights d) td -> refines d m ->
+  dict_get g td = spec_members proj m g /\ sl_of_list (dict_keys td) = spec_member_names proj m.
+Proof.
+  intros N [K L X] [Km R]. split.
+  - unfold spec_members.
+    set (want := sort_set (dict_keys (filter (fun e => String.eqb (proj (snd e)) g) m))).
+    assert (W : forall n, In n want <-> exists v, In (n, v) (d_lights d) /\ proj v = g).
+    { intros n. unfold want. rewrite sort_set_In. split.
+      - intros H. apply keys_in in H as [v H]. apply filter_In in H as [H1 H2]. cbn [snd] in H2.
+        exists v. split; [now apply R|now apply String.eqb_eq].
+      - intros [v [H1 H2]]. apply (in_keys _ n v). apply filter_In. split; [now apply R|].
+        cbn [snd]. now apply String.eqb_eq. }
+    destruct (dict_get g td) as [l|] eqn:G.
+    + apply (dict_get_In _ _ _ K) in G. destruct (L _ _ G) as [S NE].
+      assert (l = want).
+      { apply sorted_ext; auto; [apply sort_set_sorted|]. intros n. rewrite W, <- X. split.
+        - intros H. exists l. auto.
+        - intros [l' [H1 H2]]. now rewrite (td_wf_unique _ _ _ _ K G H1). }
+      subst l. destruct want; [contradiction|reflexivity].
+    + rewrite (nil_of_no_elements want); auto. intros n H. apply W in H. apply X in H as [l [H _]].
+      apply dict_get_None in G. apply G. eapply in_keys; eauto.
+  - unfold spec_member_names, sl_of_list. apply sorted_ext.
+    + now apply py_sorted_sorted.
+    + apply sort_set_sorted.
+    + intros g'. rewrite py_sorted_In, sort_set_In, in_map_iff. split.
+      * intros H. apply keys_in in H as [l H]. destruct (L _ _ H) as [_ NE].
+        destruct l as [|n l']; [contradiction|].
+        destruct (proj1 (X g' n)) as [v [H1 H2]]; [exists (n :: l'); split; auto; now left|].
+        exists (n, v). split; auto. now apply R.
+      * intros [[n v] [E H]]. cbn [snd] in E. apply R in H.
+        destruct (proj2 (X g' n)) as [l [H1 _]]; [eauto|]. eapply in_keys; eauto.
+Qed.
+
+Lemma counters_fold h : forall d,
+  d_ok (fold_left do_step h d) = d_ok d + spec_successes h /\
+  d_fail (fold_left do_step h d) = d_fail d + spec_failures h.
+Proof.
+  unfold spec_successes, spec_failures.
+  induction h as [|s h IH]; intros d; cbn [fold_left filter length].
+  - cbn. lia.
+  - destruct (IH (do_step d s)) as [A B]. rewrite A, B.
+    destruct s; cbn [do_step discover failed_discover expire d_ok d_fail length]; lia.
+Qed.
+
+(* Every getter of a reachable directory returns what the abstract directory
+   (finite map name -> group, location, last seen) determines. *)
+Theorem getters_refine : forall h,
+  let d := run h in let m := a_run h in
+  (forall n, get_light d n = a_get n m) /\
+  get_light_names d = spec_light_names m /\
+  get_light_count d = spec_light_count m /\
+  (forall g, get_group_lights d g = spec_group_lights m g) /\
+  get_group_names d = spec_group_names m /\
+  (forall g, get_location_lights d g = spec_location_lights m g) /\
+  get_location_names d = spec_location_names m /\
+  get_successful_discovers d = spec_successes h /\
+  get_failed_discovers d = spec_failures h.
+Proof.
+  intros h d m. pose proof (dir_inv_reachable h) as I. fold (run h) in I. fold d in I.
+  pose proof (refines_run h) as R. fold d in R. fold m in R.
+  destruct I as [A B C D E]. pose proof R as [Km X].
+  assert (NM : get_light_names d = spec_light_names m).
+  { unfold get_light_names, spec_light_names. apply sorted_ext; auto; [apply sort_set_sorted|].
+    intros n. rewrite sort_set_In, C. split; intros H; apply keys_in in H as [v H]; apply (in_keys _ n v); now apply X. }
+  split; [|split; [|split; [|split; [|split; [|split; [|split; [|split]]]]]]]; auto.
+  - intros n. unfold get_light, a_get. destruct (dict_get n m) as [v|] eqn:G.
+    + apply (dict_get_In _ _ _ Km) in G. apply (dict_get_In _ _ _ B). now apply X.
+    + apply dict_get_None. apply dict_get_None in G. intros H. apply G.
+      apply keys_in in H as [v H]. apply (in_keys _ n v). now apply X.
+  - unfold get_light_count, spec_light_count. rewrite <- NM. f_equal. unfold get_light_names.
+    rewrite <- (map_length fst (d_lights d)). apply Permutation_length.
+    apply NoDup_Permutation; auto; [now apply sorted_NoDup|]. intros n. symmetry. apply C.
+  - intros g. apply (members_refine l_group d (d_groups d) m g B D R).
+  - apply (members_refine l_group d (d_groups d) m EmptyString B D R).
+  - intros g. apply (members_refine l_loc d (d_locs d) m g B E R).
+  - apply (members_refine l_loc d (d_locs d) m EmptyString B E R).
+  - unfold get_successful_discovers, d, run. destruct (counters_fold h empty_dir) as [P _]. rewrite P. cbn. lia.
+  - unfold get_failed_discovers, d, run. destruct (counters_fold h empty_dir) as [_ P]. rewrite P. cbn. lia.
+Qed.
